@@ -675,11 +675,14 @@ impl<'a> UserModel<'a> {
         if !is_valid_row(last_row) {
             return Ok(());
         }
-        let row_delta = view.row - view.top_row;
+        let new_row = last_row + (view.row - view.top_row);
+        if !is_valid_row(new_row) {
+            return Ok(());
+        }
         if let Ok(worksheet) = self.model.workbook.worksheet_mut(sheet) {
             if let Some(view) = worksheet.views.get_mut(&self.model.view_id) {
                 view.top_row = last_row;
-                view.row = view.top_row + row_delta;
+                view.row = new_row;
                 view.range = [view.row, view.column, view.row, view.column];
             }
         }
